@@ -36,7 +36,7 @@ def plan(tier):
 
 def floors(tier):
     return {"min_decided": 700, "counters": {"report_evals": 4000, "tx_rows": 5000, "runs_no_trades": 15, "runs_with_shorts": 40, "runs_shared_tickers": 40,
-                                             "replays": 200, "fi_runs": 80, "mixed_runs": 70}, "max_undecided_frac": 0.3}
+                                             "replays": 200, "fi_runs": 80, "mixed_runs": 40}, "max_undecided_frac": 0.3}
 
 
 def close(a, b, rtol=1e-9, atol=1e-12):
